@@ -3,6 +3,9 @@
 //	Gen_Sync_<pkg>.v   per function: the nested skeleton of synchronisation operations
 //	Gen_Consts.v       the constants the properties name
 //	Gen_Writes_pcache.v every map write / delete in pcache/provider_cache.go
+//	Gen_Funcs.v        pcache.needMerge (kept as it was)
+//	Gen_Funcs_<pkg>.v  functions and fragments of function bodies translated statement by
+//	                   statement to Gallina (gl_*.go; table in gl_specs.go), Gen_Funcs_prelude.v
 //
 // It uses only go/parser, go/ast, go/token, go/constant (no type checking): field and
 // variable kinds (mutex, channel, wait group, once, atomic, cancel func) are resolved
@@ -93,6 +96,10 @@ func main() {
 		os.Exit(1)
 	}
 	writeIfChanged(filepath.Join(*out, "Gen_Funcs.v"), src)
+	if err := genFuncFiles(*repo, *out); err != nil {
+		fmt.Fprintln(os.Stderr, "astgen:", err)
+		os.Exit(1)
+	}
 }
 
 func writeIfChanged(path, content string) {
